@@ -4,7 +4,7 @@
    restrict / distances / memattrs / cpukinds are other models (C08, C13, C14, C15); histories containing
    them are decided on the C side (checks/c02.py). *)
 From Coq Require Import List NArith ZArith Bool String Permutation.
-From HV Require Import Base.BSet Gen.Tables Text.TypeOrder Topo.Dump Topo.WFCheck Topo.Obj Topo.Insert Topo.Api Topo.ApiProofs.
+From HV Require Import Base.BSet Gen.Tables Text.TypeOrder Topo.Dump Topo.WFCheck Topo.Obj Topo.Insert Topo.Api Topo.ApiProofs Topo.InsertProofs.
 Import ListNotations.
 Local Open Scope N_scope.
 
@@ -16,19 +16,27 @@ Print Assumptions step_tree_unchanged.
 
 (* Inv (sibling cpusets pairwise disjoint and ordered, child sets inside the parent's, parent cpuset = union
    of the children's, gp_index unique and below next_gp_index, allowed sets inside the root's cpuset/nodeset)
-   is preserved by every such call, for every argument.  _partial: insert_misc and insert_group are excluded;
-   for Group insertion the full statement is FALSE on the faithful model (refuted below). *)
-Theorem step_preserves_inv_partial : forall t c, structural c = false -> Inv t -> Inv (fst (step t c)).
-Proof. exact ApiProofs.step_preserves_inv_partial. Qed.
+   is preserved by EVERY modelled call except Group insertion (insert_misc included), for every argument,
+   valid or not.  _partial: for Group insertion the full statement is FALSE on the faithful model
+   (step_preserves_inv_refuted below, known finding dontmerge-group-missing-complete-cpuset); what is proved
+   about it is insert_keeps_order_partial. *)
+Theorem step_preserves_inv_partial : forall t c, is_group_insert c = false -> Inv t -> Inv (fst (step t c)).
+Proof. exact ApiProofs.step_preserves_inv_nongroup. Qed.
 Print Assumptions step_preserves_inv_partial.
 
 Theorem history_preserves_inv_partial : forall cs t,
-  forallb (fun c => negb (structural c)) cs = true -> Inv t -> Inv (run t cs).
-Proof. exact ApiProofs.history_preserves_inv_partial. Qed.
+  forallb (fun c => negb (is_group_insert c)) cs = true -> Inv t -> Inv (run t cs).
+Proof. exact ApiProofs.history_preserves_inv_nongroup. Qed.
 Print Assumptions history_preserves_inv_partial.
 
-Example Inv_nonvacuous : Inv topo1 /\ Inv (run topo1 [CAllow 4 (Some (bs_of_N 3)) None; CInfoAdd 8 (Some "a"%string) (Some "b"%string); CGroupFree (gsp 3 true 0)]).
-Proof. split; [exact Inv_topo1|]. apply ApiProofs.history_preserves_inv_partial; [reflexivity|exact Inv_topo1]. Qed.
+(* no object disappears and none changes its gp_index through any call but Group insertion *)
+Theorem gp_index_kept_partial : forall t c a,
+  is_group_insert c = false -> In a (gps (m_root t)) -> In a (gps (m_root (fst (step t c)))).
+Proof. exact ApiProofs.gp_index_kept_nongroup. Qed.
+Print Assumptions gp_index_kept_partial.
+
+Example Inv_nonvacuous : Inv topo1 /\ Inv (run topo1 [CAllow 4 (Some (bs_of_N 3)) None; CMisc 8 None; CInfoAdd 8 (Some "a"%string) (Some "b"%string); CGroupFree (gsp 3 true 0)]).
+Proof. split; [exact Inv_topo1|]. apply ApiProofs.history_preserves_inv_nongroup; [reflexivity|exact Inv_topo1]. Qed.
 
 (* allowed sets stay inside the root's cpuset / nodeset after hwloc_topology_allow, for every flag word and
    every sets (ALL included: fix fe89389) *)
@@ -86,6 +94,33 @@ Theorem step_preserves_inv_refuted : exists t g,
   Inv t /\ tree_inv (m_root (fst (step t (CGroup g)))) = false.
 Proof. exists topo2, (gsp 3 true 7). split; [exact Inv_topo2|exact group_dontmerge_same_cpuset_breaks_inv]. Qed.
 Print Assumptions step_preserves_inv_refuted.
+
+(* insert_keeps_order: for EVERY tree whose levels are well formed (sibling cpusets pairwise disjoint, sorted
+   by first index, inside the parent's cpuset and covering it) and EVERY new object with a non-empty cpuset
+   inside the root's, if hwloc___insert_object_by_cpuset returns the object (inserted), then every level of
+   the resulting tree is again well formed, the new object's children are exactly the old children it contains,
+   and no existing payload changed.  _partial, hypotheses: complete_cpuset = cpuset or absent on every object
+   (wfk inside tree_ok: no offline PUs), defect_free (excludes exactly the known defect: unmergeable Groups with
+   EQUAL sets made siblings), descent_ok (an object strictly containing the new cpuset has children). *)
+Theorem insert_keeps_order_partial : forall dms dm_new od, wfk od -> nonempty (dcs od) -> forall cur,
+  tree_ok cur -> defect_free dms dm_new od cur -> descent_ok dms dm_new od cur -> onch cur <> [] ->
+  forall o cur', odata o = od -> sub (dcs od) (okey cur) ->
+  insert_by_cpuset dms dm_new cur o = (cur', OInserted) ->
+  tree_ok cur' /\ odata cur' = odata cur.
+Proof. exact InsertProofs.insert_keeps_order. Qed.
+Print Assumptions insert_keeps_order_partial.
+
+(* the executable invariant used by Inv implies the Prop-level one used above *)
+Theorem tree_inv_tree_ok : forall o, all_wfkb o = true -> tree_inv o = true -> tree_ok o.
+Proof. exact InsertProofs.tree_inv_tree_ok. Qed.
+Print Assumptions tree_inv_tree_ok.
+
+Example insert_keeps_order_nonvacuous :
+  tree_ok tree1 /\ wfk od_example /\ nonempty (dcs od_example) /\
+  defect_free [] false od_example tree1 /\ descent_ok [] false od_example tree1 /\
+  snd (insert_by_cpuset [] false tree1 (Obj od_example [] [] [] [])) = OInserted /\
+  tree_ok (fst (insert_by_cpuset [] false tree1 (Obj od_example [] [] [] []))).
+Proof. exact InsertProofs.insert_keeps_order_nonvacuous. Qed.
 
 (* hwloc___insert_object_by_cpuset, one level, for every children list: when every child is disjoint from
    OBJ or strictly inside it, OBJ is inserted, the disjoint children stay in order, the others become OBJ's
